@@ -1,4 +1,4 @@
-from props.common import vault_obligations, TRUSTED as _T
+from props.common import vault_obligations, krow_obligations, ktab_obligations, TRUSTED as _T
 
 PROPERTY = "C07"
 EXPLANATION = (
@@ -8,4 +8,4 @@ EXPLANATION = (
 OUTSIDE = "names longer than the stated bound; see C01"
 ASSUMPTIONS = ["pre-states are run-length encodings with repeats >= 1 whose maps equal make_cache_map(XML)"]
 TRUSTED = _T
-OBLIGATIONS = vault_obligations(7)
+OBLIGATIONS = vault_obligations(7) + krow_obligations(7) + ktab_obligations(7, 40, 'nr')
